@@ -190,10 +190,10 @@ func signExtend(value int64, bits int) int64 {
 // worker for findBit, not intended to be called directly
 func findBitInByte(b byte, searchBit bool, testBit, stopBit uint8) int {
 	if (searchBit && b > 0) || (!searchBit && b < 0xFF) {
-		// found a byte that has the search bit
-		// this loop is guaranteed to reach a match
+		// found a byte that has the search bit; look for it from testBit
+		// down to stopBit (both are single bit masks)
 		bitOffset := 0
-		for {
+		for testBit >= stopBit {
 			set := (b & testBit) > 0
 			if set == searchBit {
 				return bitOffset
@@ -224,6 +224,8 @@ func findBit(bytes []byte, startIndex, endIndex, width int, searchBit, noEnd boo
 	} else {
 		endBit = endIndex * width
 	}
+	// the end is inclusive: it is the last bit of the unit it names
+	endBit += width - 1
 
 	// enforce boundaries
 	if startBit < 0 {
